@@ -37,9 +37,10 @@ def main():
     meta = json.load(open(os.path.join(src, "meta.json")))
     dst = os.path.join(ROOT, "seeded", a.name)
     os.makedirs(dst, exist_ok=True)
-    for f in os.listdir(src):
-        if os.path.isfile(os.path.join(src, f)):
-            shutil.copy(os.path.join(src, f), dst)
+    if os.path.realpath(src) != os.path.realpath(dst):
+        for f in os.listdir(src):
+            if os.path.isfile(os.path.join(src, f)):
+                shutil.copy(os.path.join(src, f), dst)
     patch = os.path.join(dst, "patch.diff")
     # /repo may have moved on since the change was written (later fix/hook commits): if the patch no longer applies
     # as it is, rebase it with a 3-way apply in a scratch worktree and keep the rebased diff next to the original.
@@ -149,6 +150,16 @@ def main():
     caught = {pid: ("quick %d/%d seeds" % (sum(1 for r in rs if r["tier"] == "quick" and r["rc"] == 1), sum(1 for r in rs if r["tier"] == "quick"))) +
               ("; thorough caught" if any(r["tier"] == "thorough" and r["rc"] == 1 for r in rs) else "") for pid, rs in checks.items()}
     conf["caught"] = caught
+    prev = meta.get("confirmed") or {}
+    if a.skip_confirm:
+        # keep the demonstration's confirmation of the earlier full run
+        for k in ("applies", "builds", "existing_tests", "demo_cmd", "demo_with_patch", "demo_without_patch", "demo_confirms"):
+            if k in prev and k not in conf:
+                conf[k] = prev[k]
+        if "demo_confirms" in prev:
+            conf["demo_confirmed_at"] = prev.get("demo_confirmed_at", prev.get("repo_head"))
+    if "first_result" not in meta and prev.get("caught"):
+        meta["first_result"] = prev["caught"]
     meta["confirmed"] = conf
     json.dump(meta, open(os.path.join(dst, "meta.json"), "w"), indent=1)
     print("demo_confirms=%s existing=%s caught=%s" % (conf.get("demo_confirms"), {k.split(" -count")[0][-12:]: v["rc"] for k, v in conf.get("existing_tests", {}).items()}, caught))
